@@ -52,7 +52,7 @@ STRUCTURAL = {'options', 'section_id', 'subsections', 'changes', 'files',
 
 POOL = [None, 0, 0.0, 4, 4.0, 5, 5.0, -1, 2.5, True, 1.0, 1, 'unix', 'dos', 'mac', 'text/plain',
         'text/html', 'json', 'yaml', 'text', 'binary', 'patch', '1.0', '2.0',
-        'utf-8', 'nope', '', 'x', b'', b'bytes\n', bytearray(b'x'), [], ['a'],
+        'utf-8', 'UTF-16', 'Latin-1', 'nope', 'x-no-such-codec', '', 'x', b'', b'bytes\n', bytearray(b'x'), [], ['a'],
         {}, {'k': 'v'}, (), object, 1 << 70, 'é']
 
 
@@ -278,6 +278,31 @@ def check_constructor_kwargs(spec, seed, obs):
                 return
 
 
+def perturbations(value):
+    """Same-type values with a different denotation, in several styles (a
+    final newline more / less, other newline kind, case, leading space ...).
+    """
+    out = [perturb(value)]
+    if isinstance(value, str):
+        out += [value + '\n', value + '\r\n', ' ' + value, value.upper()
+                if value.upper() != value else value.lower()]
+        if value.endswith('\n'):
+            out += [value[:-1], value[:-1] + '\r\n', value + '\n']
+    elif isinstance(value, bytes):
+        out += [value + b'\n', b' ' + value]
+        if value.endswith(b'\n'):
+            out += [value[:-1], value + b'\n']
+    elif isinstance(value, dict):
+        for k in list(value)[:2]:
+            d = copy.deepcopy(value)
+            del d[k]
+            out.append(d)
+            d2 = copy.deepcopy(value)
+            d2[k] = [d2[k], 'Z']
+            out.append(d2)
+    return [v for v in out if v != value]
+
+
 def perturb(value):
     if isinstance(value, bool):
         return 'changed'
@@ -352,7 +377,20 @@ def check_equality(spec, seed, obs, other_tree=None):
                 saved_public = sec.content
                 try:
                     if saved_public is not None:
-                        sec.content = perturb(saved_public)
+                        # every style in turn; the last one stays for the
+                        # generic check below
+                        styles = perturbations(saved_public)
+                        for pv in styles[1:]:
+                            sec.content = pv
+                            obs.count('perturbations_checked')
+                            if a == b or not (a != b):
+                                obs.violation(
+                                    'perturbation_leaves_trees_equal:%s:'
+                                    'content_style' % kind,
+                                    dict(case, section_index=idx),
+                                    {'from': repr(saved_public)[:80],
+                                     'to': repr(pv)[:80]})
+                        sec.content = styles[0]
                     else:
                         sec.content = {str: 'Z', bytes: b'Z',
                                        dict: {'Z': 1}}[type(sec).data_type]
